@@ -26,6 +26,7 @@ use miniscript::bitcoin::secp256k1::{Message, Secp256k1};
 use miniscript::bitcoin::sighash::{Prevouts, SighashCache};
 use miniscript::bitcoin::taproot::{self, ControlBlock, TaprootBuilder};
 use miniscript::bitcoin::ScriptBuf;
+use miniscript::descriptor::TapTree;
 use miniscript::{DefiniteDescriptorKey, Descriptor, Miniscript, Tap};
 
 use crate::ast::{self, hex, Node, HK};
@@ -94,20 +95,46 @@ fn keypath_valid(ps: &PSat, sig: &[u8]) -> bool {
     }
 }
 
+/// shape of a tap tree over leaf indices
+#[derive(Clone, Debug)]
+pub enum Shape { L(usize), B(Box<Shape>, Box<Shape>) }
+
+impl Shape {
+    /// left-leaning comb over n leaves, as `c17::dd_tr` builds it
+    pub fn comb(n: usize) -> Shape {
+        let mut t = Shape::L(0);
+        for i in 1..n { t = Shape::B(Box::new(t), Box::new(Shape::L(i))); }
+        t
+    }
+    pub fn right(n: usize) -> Shape {
+        let mut t = Shape::L(n - 1);
+        for i in (0..n - 1).rev() { t = Shape::B(Box::new(Shape::L(i)), Box::new(t)); }
+        t
+    }
+    pub fn balanced(lo: usize, hi: usize) -> Shape {
+        if hi - lo == 1 { Shape::L(lo) } else { let m = (lo + hi) / 2; Shape::B(Box::new(Shape::balanced(lo, m)), Box::new(Shape::balanced(m, hi))) }
+    }
+    /// (leaf index, depth) in depth-first order
+    fn depths(&self, d: usize, acc: &mut Vec<(usize, usize)>) {
+        match self { Shape::L(i) => acc.push((*i, d)), Shape::B(a, b) => { a.depths(d + 1, acc); b.depths(d + 1, acc); } }
+    }
+}
+
 /// every (leaf script, control block) of the tree, computed with rust-bitcoin's TaprootBuilder
-/// from the leaf scripts (left-leaning comb as `c17::dd_tr` builds it) — NOT from the library's
-/// `TrSpendInfo`
-fn tree_leaves(internal: u32, leaf_nodes: &[Node]) -> Vec<(Vec<u8>, Vec<u8>)> {
-    let n = leaf_nodes.len();
+/// from the leaf scripts and the tree shape — NOT from the library's `TrSpendInfo`
+fn tree_leaves(tc: &TrCase) -> Vec<(Vec<u8>, Vec<u8>)> {
+    let n = tc.leaves.len();
     if n == 0 { return vec![]; }
+    let shape = tc.shape.clone().unwrap_or_else(|| Shape::comb(n));
+    let mut order = vec![];
+    shape.depths(0, &mut order);
     let secp = Secp256k1::new();
     let mut b = TaprootBuilder::new();
-    for (i, node) in leaf_nodes.iter().enumerate() {
-        let ms: Miniscript<DefiniteDescriptorKey, Tap> = match ast::to_ms(node) { Ok(m) => m, Err(_) => return vec![] };
-        let depth = if n == 1 { 0 } else if i == 0 { n - 1 } else { n - i };
+    for (i, depth) in order {
+        let ms: Miniscript<DefiniteDescriptorKey, Tap> = match ast::to_ms(&tc.leaves[i]) { Ok(m) => m, Err(_) => return vec![] };
         b = match b.add_leaf(depth as u8, ms.encode()) { Ok(b) => b, Err(_) => return vec![] };
     }
-    let ik = kent(internal).pk.inner.x_only_public_key().0;
+    let ik = kent(tc.internal).pk.inner.x_only_public_key().0;
     let info = match b.finalize(&secp, ik) { Ok(i) => i, Err(_) => return vec![] };
     let mut v = vec![];
     for ((script, ver), branches) in info.script_map() {
@@ -119,7 +146,49 @@ fn tree_leaves(internal: u32, leaf_nodes: &[Node]) -> Vec<(Vec<u8>, Vec<u8>)> {
     v
 }
 
-pub struct TrCase { pub internal: u32, pub leaves: Vec<Node> }
+/// `leaves`: the leaf scripts as the INDEPENDENT tree computation sees them (x-only keys);
+/// `shape`: None = left-leaning comb; `desc_text`: the descriptor is parsed from this text
+/// instead of being built from `leaves` (full keys of chosen parity)
+pub struct TrCase { pub internal: u32, pub leaves: Vec<Node>, pub shape: Option<Shape>, pub desc_text: Option<String> }
+
+fn tc(internal: u32, leaves: Vec<Node>) -> TrCase { TrCase { internal, leaves, shape: None, desc_text: None } }
+
+fn collect_atoms(nodes: &[Node]) -> (Vec<u32>, Vec<(HK, u32)>, Vec<u32>, Vec<u32>) {
+    let (mut ks, mut hs, mut af, mut ol) = (vec![], vec![], vec![], vec![]);
+    for n in nodes { n.keys(&mut ks); n.hashes(&mut hs); n.locks(&mut af, &mut ol); }
+    let mut ks: Vec<u32> = ks.into_iter().map(|k| if (200..300).contains(&k) { k - 200 } else { k }).collect();
+    ks.sort(); ks.dedup(); hs.sort(); hs.dedup(); af.sort(); af.dedup(); ol.sort(); ol.dedup();
+    (ks, hs, af, ol)
+}
+
+/// the descriptor of a case: comb shapes through `c17::dd_tr`, every other shape / text here
+fn build_tr(tcase: &TrCase) -> Option<DD> {
+    if tcase.shape.is_none() && tcase.desc_text.is_none() { return dd_tr(tcase.internal, &tcase.leaves); }
+    type K = DefiniteDescriptorKey;
+    let mut lhs = vec![];
+    let mut mss: Vec<std::sync::Arc<Miniscript<K, Tap>>> = vec![];
+    for n in &tcase.leaves {
+        let ms: Miniscript<K, Tap> = ast::to_ms(n).ok()?;
+        lhs.push(miniscript::bitcoin::taproot::TapLeafHash::from_script(&ms.encode(), miniscript::bitcoin::taproot::LeafVersion::TapScript));
+        mss.push(std::sync::Arc::new(ms));
+    }
+    fn tree(s: &Shape, mss: &[std::sync::Arc<Miniscript<DefiniteDescriptorKey, Tap>>]) -> Option<TapTree<DefiniteDescriptorKey>> {
+        match s {
+            Shape::L(i) => Some(TapTree::leaf(mss.get(*i)?.clone())),
+            Shape::B(a, b) => TapTree::combine(tree(a, mss)?, tree(b, mss)?).ok(),
+        }
+    }
+    let desc = match &tcase.desc_text {
+        Some(t) => Descriptor::<K>::from_str(t).ok()?,
+        None => Descriptor::new_tr(kent(tcase.internal).def.clone(), Some(tree(tcase.shape.as_ref()?, &mss)?)).ok()?,
+    };
+    let (mut keys, hashes, afters, olders) = collect_atoms(&tcase.leaves);
+    let leaf_keys = tcase.leaves.iter().map(|n| collect_atoms(std::slice::from_ref(n)).0).collect();
+    if !keys.contains(&tcase.internal) { keys.push(tcase.internal); }
+    Some(DD { name: desc.to_string().split('#').next().unwrap().to_string(), desc, keys, hashes, afters, olders,
+        leaves: lhs, internal: Some(tcase.internal), leaf_keys,
+        rawpkhs: { let mut r = vec![]; for n in &tcase.leaves { n.rawpkhs(&mut r); } r.sort(); r.dedup(); r }, sane: true })
+}
 
 /// judge one spend the library produced (entry = which API produced it)
 fn judge_spend(out: &mut Out, dd: &DD, tr: Option<&TrCase>, ps: &PSat, wit: &[Vec<u8>], ss: &ScriptBuf, info: &str) {
@@ -137,7 +206,9 @@ fn judge_spend(out: &mut Out, dd: &DD, tr: Option<&TrCase>, ps: &PSat, wit: &[Ve
         }
     }
     let ex = extras(dd);
-    out.line(&format!("J dnonmall {} {} {} {} {} {} | {}", lt, sq, spk, hex(ss.as_bytes()), wit_wire(wit), wit_wire(&ex), info), "ok");
+    // one curve point in two key encodings: its own op name (same judge), see c03::two_encodings
+    let two = dd.keys.iter().chain(dd.rawpkhs.iter()).any(|k| *k < 100 && (dd.keys.contains(&(k + 100)) || dd.rawpkhs.contains(&(k + 100))));
+    out.line(&format!("J {} {} {} {} {} {} {} | {}", if two { "dnonmall2e" } else { "dnonmall" }, lt, sq, spk, hex(ss.as_bytes()), wit_wire(wit), wit_wire(&ex), info), "ok");
     out.count(&format!("desc judged: {:?}", dd.desc.desc_type()));
     // ---- other envelopes of a taproot output
     if let Some(tc) = tr {
@@ -146,7 +217,7 @@ fn judge_spend(out: &mut Out, dd: &DD, tr: Option<&TrCase>, ps: &PSat, wit: &[Ve
         let stack_items: Vec<Vec<u8>> = if key_path { wit.to_vec() } else { wit[..wit.len().saturating_sub(2)].to_vec() };
         let mut items = stack_items.clone();
         items.extend(ex.iter().cloned());
-        let all = tree_leaves(tc.internal, &tc.leaves);
+        let all = tree_leaves(tc);
         if let Some(c) = &chosen {
             if !all.contains(c) { out.line(&format!("J consistent chosen-leaf-in-independent-tree {}", info), "bad:leaf-or-control-block-unknown-to-rust-bitcoin"); }
         }
@@ -160,7 +231,9 @@ fn judge_spend(out: &mut Out, dd: &DD, tr: Option<&TrCase>, ps: &PSat, wit: &[Ve
     }
 }
 
-fn pa_of(dd: &DD, keymask: u32, premask: u32, lt: u32, sq: u32, key_spend: bool) -> PA {
+fn pa_of(dd: &DD, keymask: u32, premask: u32, lt: u32, sq: u32, key_spend: bool) -> PA { pa_of2(dd, keymask, premask, lt, sq, key_spend, true) }
+
+fn pa_of2(dd: &DD, keymask: u32, premask: u32, lt: u32, sq: u32, key_spend: bool, sighash_default: bool) -> PA {
     let mut pa = PA::default();
     for (i, k) in dd.keys.iter().enumerate() {
         if keymask >> i & 1 == 1 {
@@ -175,6 +248,7 @@ fn pa_of(dd: &DD, keymask: u32, premask: u32, lt: u32, sq: u32, key_spend: bool)
         }
     }
     for (i, h) in dd.hashes.iter().enumerate() { if premask >> i & 1 == 1 { pa.pre.insert(*h); } }
+    for src in pa.srcs.iter_mut() { src.sighash_default = sighash_default; }
     pa.abs = if lt > 0 { Some(lt) } else { None };
     pa.rel = if sq != 0xffff_fffe { Some(sq) } else { None };
     pa
@@ -207,14 +281,20 @@ fn one_desc(out: &mut Out, dd: &DD, tr: Option<&TrCase>, thorough: bool, rng: &m
     for i in 0..nk { masks.push((fullk & !(1 << i), fullp)); }
     for i in 0..np { masks.push((fullk, fullp & !(1 << i))); }
     for _ in 0..(if thorough { 6 } else { 2 }) { masks.push((rng.below(1usize << nk) as u32, rng.below(1usize << np) as u32)); }
+    // nothing at all; every key but no preimage
+    masks.push((0, 0));
+    if np > 0 { masks.push((fullk, 0)); }
     let mut txs = tx_values(dd);
     txs.truncate(if thorough { 4 } else { 2 });
+    // every key and preimage but NO lock met
+    if !txs.contains(&(0, 0xffff_fffe)) { txs.push((0, 0xffff_fffe)); }
     let mut done: BTreeSet<(Vec<Vec<u8>>, Vec<u8>, u32, u32)> = BTreeSet::new();
     let mut n = 0u64;
     for (lt, sq) in txs {
         for (km, pm) in &masks {
-            for key_spend in if is_tr(dd) { vec![true, false] } else { vec![false] } {
-                let pa = pa_of(dd, *km, *pm, lt, sq, key_spend);
+            // taproot: key path available or not; 64-byte (default sighash) or 65-byte signatures
+            for (key_spend, shd) in if is_tr(dd) { vec![(true, true), (false, true), (false, false)] } else { vec![(false, true)] } {
+                let pa = pa_of2(dd, *km, *pm, lt, sq, key_spend, shd);
                 let ps = PSat::new(dd, &pa, lt, sq);
                 // entry point 1: Descriptor::get_satisfaction
                 let r1 = catch(|| dd.desc.get_satisfaction(&ps).ok());
@@ -256,7 +336,7 @@ fn controls(out: &mut Out) {
             let chosen = if wit.len() >= 2 { Some((wit[wit.len() - 2].clone(), wit[wit.len() - 1].clone())) } else { None };
             let mut items: Vec<Vec<u8>> = wit[..wit.len().saturating_sub(2)].to_vec();
             items.extend(extras(&dd));
-            for (script, cb) in tree_leaves(5, &leaves) {
+            for (script, cb) in tree_leaves(&tc(5, leaves.clone())) {
                 if Some((script.clone(), cb.clone())) == chosen { continue; }
                 let tail = vec![script, cb];
                 desc::register_valid(out, &ps.tx, &ps.prevout, &ScriptBuf::new(), &tail, &candidates(&dd, &wit));
@@ -330,9 +410,18 @@ pub fn run(out: &mut Out, thorough: bool, rng: &mut Rng, pools: &Pools, n_hand: 
     let mut n_spends = 0u64;
     let m = if thorough { 4 } else { 1 };
     let ms_corpus = mode_sensitive(false);
+    // uncompressed keys under P2SH: one point in both encodings; a 65-byte key pushed by a pk_h
+    // dissatisfaction; mixed encodings in a multisig
+    let sh_corpus = vec![
+        Node::OrD(bx(pk(100)), bx(pk(0))),
+        Node::OrB(bx(Node::Check(bx(Node::PkH(100)))), bx(Node::Alt(bx(pk(1))))),
+        Node::AndV(bx(Node::Verify(bx(pk(1)))), bx(Node::Check(bx(Node::PkH(102))))),
+        Node::Multi(2, vec![100, 1, 102]),
+    ];
     let bare_corpus = vec![pk(0), Node::Multi(1, vec![0, 1]), Node::Multi(2, vec![0, 1, 2]), Node::SortedMulti(2, vec![2, 1, 0])];
     for (wrap, pool, cnt) in [(Wrap::Wsh, pools.segwit, 80 * m), (Wrap::ShWsh, pools.segwit, 40 * m), (Wrap::Sh, pools.legacy, 50 * m), (Wrap::Bare, &bare_corpus[..], 4)] {
         let mut nodes: Vec<&Node> = if wrap == Wrap::Bare { vec![] } else { ms_corpus.iter().collect() };
+        if wrap == Wrap::Sh { nodes.extend(sh_corpus.iter()); }
         nodes.extend(pick(pool, cnt, n_hand.min(cnt / 2), rng));
         for node in nodes {
             // Bare accepts only a few shapes; `dd_ms` returns None otherwise
@@ -352,14 +441,42 @@ pub fn run(out: &mut Out, thorough: bool, rng: &mut Rng, pools: &Pools, n_hand: 
     let v = |n: Node| Node::Verify(bx(n));
     // hand corpus: a cheaper signature-free alternative INSIDE a leaf, leaves sharing a key,
     // the same leaf at two depths (control blocks of different length), key-only
-    tr_cases.push(TrCase { internal: 9, leaves: vec![] });
-    tr_cases.push(TrCase { internal: 9, leaves: vec![pk(200)] });
-    tr_cases.push(TrCase { internal: 9, leaves: vec![Node::AndV(bx(v(pk(200))), bx(Node::OrD(bx(pk(201)), bx(sha(0))))), pk(202)] });
-    tr_cases.push(TrCase { internal: 9, leaves: vec![pk(200), Node::AndV(bx(v(pk(200))), bx(Node::Older(10)))] });
-    tr_cases.push(TrCase { internal: 9, leaves: vec![Node::MultiA(2, vec![200, 201, 202]), Node::AndV(bx(v(pk(203))), bx(sha(1)))] });
-    tr_cases.push(TrCase { internal: 0, leaves: vec![pk(200), pk(201)] });   // internal key also a leaf key
-    for n in mode_sensitive(true) { tr_cases.push(TrCase { internal: 9, leaves: vec![n.clone()] }); tr_cases.push(TrCase { internal: 9, leaves: vec![pk(205), n] }); }
-    tr_cases.push(TrCase { internal: 9, leaves: vec![pk(200), pk(201), pk(200)] });   // one leaf at two depths
+    tr_cases.push(tc(9, vec![]));
+    tr_cases.push(tc(9, vec![pk(200)]));
+    tr_cases.push(tc(9, vec![Node::AndV(bx(v(pk(200))), bx(Node::OrD(bx(pk(201)), bx(sha(0))))), pk(202)]));
+    tr_cases.push(tc(9, vec![pk(200), Node::AndV(bx(v(pk(200))), bx(Node::Older(10)))]));
+    tr_cases.push(tc(9, vec![Node::MultiA(2, vec![200, 201, 202]), Node::AndV(bx(v(pk(203))), bx(sha(1)))]));
+    tr_cases.push(tc(0, vec![pk(200), pk(201)]));   // internal key also a leaf key
+    for n in mode_sensitive(true) { tr_cases.push(tc(9, vec![n.clone()])); tr_cases.push(tc(9, vec![pk(205), n])); }
+    tr_cases.push(tc(9, vec![pk(200), pk(201), pk(200)]));   // one leaf at two depths
+    // deep / non-comb shapes; equal-size leaves (ties in the size comparison of `best_tap_spend`)
+    let pks = |n: u32| (0..n).map(|i| pk(200 + i)).collect::<Vec<Node>>();
+    tr_cases.push(TrCase { internal: 9, leaves: pks(4), shape: Some(Shape::balanced(0, 4)), desc_text: None });
+    tr_cases.push(TrCase { internal: 9, leaves: pks(4), shape: Some(Shape::right(4)), desc_text: None });
+    tr_cases.push(TrCase { internal: 9, leaves: pks(5), shape: Some(Shape::right(5)), desc_text: None });
+    tr_cases.push(TrCase { internal: 9, leaves: pks(5), shape: Some(Shape::balanced(0, 5)), desc_text: None });
+    tr_cases.push(TrCase { internal: 9, leaves: pks(5), shape: None, desc_text: None });
+    {
+        let l1 = Node::AndV(bx(v(pk(201))), bx(Node::Older(10)));
+        let l2 = Node::AndV(bx(v(pk(202))), bx(sha(0)));
+        let l3 = Node::MultiA(2, vec![203, 204, 205]);
+        let l4inner = Node::AndV(bx(v(pk(207))), bx(Node::After(100)));
+        let l4 = Node::OrD(bx(pk(206)), bx(l4inner));
+        let right = Shape::B(Box::new(Shape::balanced(1, 3)), Box::new(Shape::balanced(3, 5)));
+        tr_cases.push(TrCase { internal: 9, leaves: vec![pk(200), l1, l2, l3, l4],
+            shape: Some(Shape::B(Box::new(Shape::L(0)), Box::new(right))), desc_text: None });
+    }
+    // ONE POINT, TWO FULL KEYS: 02X and 03X are different `Pk` values with the same x-only key
+    {
+        let k = kent(2).pk;
+        let h = hex(&k.inner.serialize());
+        let flipped = format!("{}{}", if &h[..2] == "02" { "03" } else { "02" }, &h[2..]);
+        let ik = kent(9).def.to_string();
+        tr_cases.push(TrCase { internal: 9, leaves: vec![Node::OrD(bx(pk(202)), bx(pk(202)))], shape: None,
+            desc_text: Some(format!("tr({},or_d(pk({}),pk({})))", ik, h, flipped)) });
+        tr_cases.push(TrCase { internal: 9, leaves: vec![pk(202), pk(202)], shape: None,
+            desc_text: Some(format!("tr({},{{pk({}),pk({})}})", ik, h, flipped)) });
+    }
     let n_rand = if thorough { 300 } else { 80 };
     if !pools.tap.is_empty() {
         for _ in 0..n_rand {
@@ -375,11 +492,16 @@ pub fn run(out: &mut Out, thorough: bool, rng: &mut Rng, pools: &Pools, n_hand: 
             }
             if leaves.is_empty() { continue; }
             let internal = match (0..10u32).rev().find(|k| !used.contains(k)) { Some(k) => k, None => continue };
-            tr_cases.push(TrCase { internal, leaves });
+            // every third random tree gets a non-comb shape
+            let shape = match (leaves.len(), tr_cases.len() % 3) { (n, 1) if n >= 3 => Some(Shape::right(n)), (n, 2) if n >= 3 => Some(Shape::balanced(0, n)), _ => None };
+            tr_cases.push(TrCase { internal, leaves, shape, desc_text: None });
         }
     }
-    for tc in &tr_cases {
-        if let Some(dd) = dd_tr(tc.internal, &tc.leaves) { n_desc += 1; n_spends += one_desc(out, &dd, Some(tc), thorough, rng); }
+    for tcase in &tr_cases {
+        match build_tr(tcase) {
+            Some(dd) => { n_desc += 1; n_spends += one_desc(out, &dd, Some(tcase), thorough, rng); }
+            None => out.count("desc not constructible: tr case"),
+        }
     }
     controls(out);
     out.note("descriptors", n_desc.to_string());
